@@ -51,6 +51,16 @@ def generate(seed, tier):
     sample(c03, 'c03')
     sample(c12, 'c12')
     sample(c08, 'c08')
+    # every notification case of C08 (the halves differ most easily where nothing is expected back)
+    seen = {json.dumps(x['c'], sort_keys=True, default=repr) for x in cases if x['src'] == 'c08'}
+    for c in c08.generate(seed, 'quick'):
+        note = (c['t'] == 'single' and c['q']['id'] is None) or (c['t'] == 'batch' and all(q['id'] is None for q in c['qs']))
+        if note:
+            cc = strip(c)
+            k = json.dumps(cc, sort_keys=True, default=repr)
+            if k not in seen:
+                seen.add(k)
+                cases.append({'src': 'c08', 'c': cc})
     sample(c09, 'c09')
     sample(c19, 'c19')
     sample(c07, 'c07', keys=('casync', 'dasync'))
@@ -73,17 +83,24 @@ def observe(case):
     return (a, b)
 
 
+def raw_same(a, b):
+    oa, ob = a['out'], b['out']
+    if oa[0] == 'some' and ob[0] == 'some' and len(oa) > 4 and len(ob) > 4:
+        return 'true' if oa[4] == ob[4] else 'false'
+    return 'true'
+
+
 def encode(case, obs):
     src, c = case['src'], case['c']
     a, b = obs
     if src in ('c01', 'c03'):
         cfg = c01.cfg_of(c) if src == 'c01' else c['cfg']
         t, defs = dispenv.cdcase_shared(cfg, a['load'], {'ctx': 7}, a['out'], a['events'])
-        return ('(C11.PDisp %s %s)' % (t, dispenv.cdobs(b['out'], b['events'])), defs)
+        return ('(C11.PDisp %s %s %s)' % (t, dispenv.cdobs(b['out'], b['events']), raw_same(a, b)), defs)
     if src in ('c02', 'c12'):
         cfg = c02.cfg_of(c) if src == 'c02' else c['cfg']
         t, defs = dispenv.cdcase_shared(cfg, a['load'], {'ctx': 7}, a['out'], a['events'])
-        return ('(C11.PDisp %s %s)' % (t, dispenv.cdobs(b['out'], b['events'])), defs)
+        return ('(C11.PDisp %s %s %s)' % (t, dispenv.cdobs(b['out'], b['events']), raw_same(a, b)), defs)
     if src in ('c09', 'c19'):
         return '(C11.PRetry %s %s)' % (re_.encode(dict(c, **{'async': False}), a), re_.cobs(b))
     if src == 'c08':
